@@ -27,7 +27,12 @@ PROP_FILES = [os.path.join(V.PROPS, "C18.v")]
 RES_AFTER_SLACK = 1e-4      # residual() recomputed after solve (bulk state rebuilt from rho_b) vs tol of the last stage
 BULK_RTOL = 1e-10           # bulk partial densities before/after a solve with the default specification
 MOLES_SLACK = 1e-6          # relative slack on the proved particle-number bound (f64 evaluation of the bound itself)
-OBS_RTOL = {"surface_tension": 2e-6, "grand_potential": 1e-5, "interfacial_tension": 1e-5, "adsorption": 1e-5}
+MOLES_WALL = 1e-9           # + this * N: cells where the external potential is "overwhelming" have res = 0 in residual(), so their
+                            # (rho - rho_projected) cannot be read off; rho_projected there is rho_b*exp(-(50+..)/m)*bonds
+                            # (observed: 1.6e-12 of N for propane, m = 2)
+OBS_RTOL = {"surface_tension": 2e-6, "grand_potential": 1e-5, "interfacial_tension": 1e-4, "adsorption": 1e-5}
+# calibration (pinned tree, tol 1e-11, seeds 1-3 quick + thorough): worst relative spread between chains 1.3e-7 (surface tension),
+# 4.8e-7 (grand potential), 2.5e-6 (interfacial tension = Omega + pV, a difference of 5x larger numbers), 5.0e-7 (adsorption)
 TIGHT_TOL = 1e-11           # observables are compared between chains whose last stage has at most this tolerance
 
 
@@ -86,7 +91,7 @@ def run(ctx):
             nstar, moles = vec(p["n_star"]), vec(s["moles_seg"])
             bound = moles_bound(s)
             for i, (a, b) in enumerate(zip(moles, nstar)):
-                if not abs(a - b) <= bound[i] * (1 + MOLES_SLACK) + 1e-12 * abs(b):
+                if not abs(a - b) <= bound[i] * (1 + MOLES_SLACK) + MOLES_WALL * abs(b):
                     fails.append({"input": solve_key(s), "segment": i, "specified_N": b, "profile_contains": a,
                                   "ratio": a / b if b else None, "rho_b": s["rho_b"], "proved_bound": bound[i],
                                   "how": "converged grand-canonical profile, then specification Moles{N*} with N* the zero of "
@@ -265,6 +270,14 @@ def run(ctx):
         tol = s["tol_last"]
         after = num(a.get("res_norm"))
         last = num(s["log_res"][-1]) if s["log_res"] else float("nan")
+        # the norm by the model's formula (RMS over density and bulk residuals) from the arrays residual() returned
+        rbk = vec(a.get("res_bulk"))
+        model_norm = math.sqrt((num(a.get("sum_res_sq")) + sum(x * x for x in rbk)) / (s["segments"] * s["grid"] + s["segments"]))
+        if tol is not None and not model_norm < tol * (1 + RES_AFTER_SLACK):
+            V.violation(ctx, "solve reported success but the RMS of (res, res_bulk) of the returned profile is %.3e, tolerance %s (%s, chain %s)"
+                        % (model_norm, tol, s["system"], s["chain"]),
+                        {"broken": "implementation: success without stationarity (norm by the model's formula)", "input": key,
+                         "model_norm": model_norm, "reported_norm": after, "res_bulk": rbk, "tol": tol}, found_input=True)
         if tol is None or not (after < tol * (1 + RES_AFTER_SLACK)) or not (last < tol):
             V.violation(ctx, "solve reported success but the residual of the returned profile is %.3e (last log entry %.3e), tolerance %s (%s, chain %s)"
                         % (after, last, tol, s["system"], s["chain"]),
@@ -290,7 +303,7 @@ def run(ctx):
                 worst["moles_rel_dev"] = max(worst["moles_rel_dev"], dev / abs(nn))
                 if b > 0:
                     worst["moles_dev_over_bound"] = max(worst["moles_dev_over_bound"], dev / b)
-                if not dev <= b * (1 + MOLES_SLACK) + 1e-12 * abs(nn):
+                if not dev <= b * (1 + MOLES_SLACK) + MOLES_WALL * abs(nn):
                     V.violation(ctx, "solve reported success but the profile contains %.9g particles instead of the specified %.9g (%s, %s, chain %s)"
                                 % (sum(moles) if i < 0 else moles[i], nn, key["specification"], s["system"], s["chain"]),
                                 {"broken": "implementation: specification not met", "input": key, "moles": s["moles_seg"], "specified": s["spec_N"],
@@ -350,7 +363,7 @@ def run(ctx):
         "particle_number_specification_solves": {"total": len(spec_solves), "ok": sum(1 for s in spec_solves if s["result"] == "Ok")},
         "reduced_temperatures": impl.get("taus"),
         "tolerances": {"residual_after_vs_tol": "< tol*(1+%g)" % RES_AFTER_SLACK, "bulk_unchanged_rel": BULK_RTOL,
-                       "moles": "proved bound * (1+%g) + 1e-12 N" % MOLES_SLACK, "observables_rel": OBS_RTOL,
+                       "moles": "proved bound * (1+%g) + %g N" % (MOLES_SLACK, MOLES_WALL), "observables_rel": OBS_RTOL,
                        "interval goals": "calc_bulk 1e-13 rel; res_bulk 1e-9 of (|rho_b|+|target|); res_norm 1e-8 rel; moles 1e-12 rel"},
         "worst_observed": worst,
         "observable_comparisons": obs_cmp,
